@@ -31,6 +31,7 @@ def extra(tier, rng):
         ws = [rng.randint(1, 6) for _ in range(rng.randint(2, 5))]
         res.append({"cfg": {"kinds": {}}, "profile": "staggered", "tops": [["value", coregen.staggered(ws)]]})
     res.append({"cfg": {"kinds": {}}, "family": ["wide", 1100 if tier == "quick" else 2600]})
+    res += cc.corefam4.eventhook_cases(tier, cc.fork(rng, "eventhook")) + cc.corefam4.debugthreads_cases(tier, cc.fork(rng, "debugthreads"))
     return res
 
 
